@@ -1,5 +1,6 @@
 (* C10 — Malformed or irrelevant traffic never crashes or perturbs the daemons (server side and decoders).  Statements only. *)
 From PSA Require Import model.Bytes model.Layer model.Dhcp model.Server spec.Monitors proofs.LayerProofs proofs.DhcpProofs proofs.ServerProofs.
+From PSA Require Import spec.WireHyps spec.WireExample proofs.WireProofs proofs.WireInv proofs.WireLease proofs.WireSnap proofs.WireHypsProofs proofs.WireExampleProofs.
 Open Scope N_scope.
 
 (* no byte string of any length makes a decoder of the receive path index outside its input *)
@@ -22,6 +23,27 @@ Theorem C10_unhandled_is_noop : forall c t r, handled c (r_pkt r) = false -> r_h
   forall t', accept_round c t r = RAcc t' -> t' = t /\ r_outs r = [].
 Proof. exact junk_is_noop. Qed.
 Print Assumptions C10_unhandled_is_noop.
+
+(* ON THE WIRE (server), over whole histories: on every accepted history mon_C10 holds - a received byte string that does not parse as
+   an IPv4/UDP datagram carrying a BOOTREQUEST of type DISCOVER or REQUEST causes no reply, and the table listing after it shows
+   the bindings listed before it, minus those that have run out meanwhile, and nothing else: all later behaviour is unchanged
+   (the rounds that follow are judged from that listing by the other theorems).
+   The acceptor (model/Server.v) is what every run compares the implementation with, round by round (tag 101); the premises
+   are boolean conditions (spec/WireHyps.v) evaluated on every generated history (tag 220, Cxx_premises below); the rounds are
+   sequential with a table listing after each (interleavings: the theorems over operation histories above). *)
+Theorem C10_on_the_wire : forall c h, cfg_srv_ok c -> durations_ok c -> Forall wf_round h -> snap_times 0%Z h -> accepted c h -> mon_C10 c h = true.
+Proof. exact accepted_history_c10. Qed.
+Print Assumptions C10_on_the_wire.
+
+Theorem C10_premises : forall c h, wire_hyps c h = true -> wire_premises c h.
+Proof. exact wire_hyps_premises. Qed.
+Print Assumptions C10_premises.
+
+(* the premises hold of, and the acceptor accepts, a recorded history of the real server (OFFER, ACK, NAK on an ARP conflict, silent rounds) *)
+Theorem C10_wire_nonvacuous : exists c h, wire_example = Some (c, h) /\ wire_premises c h /\ accepted c h /\
+  length h = 6%nat /\ length (events c h) = 2%nat /\ length (flat_map r_outs h) = 3%nat.
+Proof. exact wire_example_full. Qed.
+Print Assumptions C10_wire_nonvacuous.
 
 Example C10_nonvacuous :
   decode_chain [69; 0; 0; 20; 0; 0; 0; 0; 64; 6; 0; 0; 0; 0; 0; 0; 255; 255; 255; 255] = None /\ decode_ipv4 [69] = Err.
